@@ -1368,6 +1368,23 @@ func shHasClass(r *shEvalResult, class string) bool {
 
 // shNormalise replaces nil slices by empty ones so that events are uniform records for TLC.
 func shNormalise(c *shCase) {
+	shPkg = "shapes.v1"
+	if c.NoPkg {
+		shPkg = ""
+		ren := map[string]string{}
+		for i := range c.Msgs {
+			n := string(rune('A'+i%26)) + "m"
+			ren[c.Msgs[i].Name] = n
+			c.Msgs[i].Name = n
+		}
+		for i := range c.Msgs {
+			for j := range c.Msgs[i].Fields {
+				if n, ok := ren[c.Msgs[i].Fields[j].Ref]; ok && c.Msgs[i].Fields[j].Kind == "message" {
+					c.Msgs[i].Fields[j].Ref = n
+				}
+			}
+		}
+	}
 	if c.Msgs == nil {
 		c.Msgs = []shMsg{}
 	}
